@@ -376,6 +376,7 @@ class Contract:
         for n, f in self.requires(it, pre, a):
             st.oblige(f'{caller}#call:{self.name}.pre[{n}]', f, callee=self.name)
             st.assume(as_z3(f))
+        pre_call = pre
         if self.yields:
             it.do_yield(self.name)
             pre = st.snapshot()
@@ -403,7 +404,7 @@ class Contract:
             if case.ensures is not None:
                 for _n, f in case.ensures(post, exc):
                     st.assume(as_z3(f))
-            st.emit('call', fn=self.name, a=a, res=None, exc=exc, pre=pre, post=post, case=case.name)
+            st.emit('call', fn=self.name, a=a, res=None, exc=exc, pre=pre, post=post, case=case.name, pre_call=pre_call)
             raise PyRaise(exc, f'{self.name}:{case.name}')
         for ref, field in mods:
             havoc_location(st, ref, field, f'{self.name}.{field}')
@@ -418,7 +419,7 @@ class Contract:
                 st.assume(as_z3(f))
             if isinstance(res, SymV):
                 res = lower(res.t, st)
-        st.emit('call', fn=self.name, a=a, res=res, exc=None, pre=pre, post=post, case=None)
+        st.emit('call', fn=self.name, a=a, res=res, exc=None, pre=pre, post=post, case=None, pre_call=pre_call)
         self.call_effects(it, pre, post, a, res)
         return res
 
